@@ -76,8 +76,8 @@ fn run(input: RunInput) -> ScenFuture {
         });
         let svc = Svc::new(&w, plan);
         let h = svc.handle();
-        let server = w.start_node(w.spec(2, cfg_s), svc).unwrap();
-        let client = w.start_node(w.spec(1, cfg_c), Svc::echo(&w)).unwrap();
+        let server = w.start_node(w.spec_exact(2, cfg_s), svc).unwrap();
+        let client = w.start_node(w.spec_exact(1, cfg_c), Svc::echo(&w)).unwrap();
         let mut sub_c = Subscription::new(&client.net).unwrap();
         let mut sub_s = Subscription::new(&server.net).unwrap();
         if client.net.connect_with_peer_id(server.addr, server.peer_id).await.is_err() {
